@@ -63,6 +63,16 @@ def getParam (j : Json) : Except String Param := do
          packedPos := attrs.contains "%packed_pos_pmt",
          packedNamed := attrs.contains "%packed_named_pmt" }
 
+/-- names of the `method_decl`s of a class body whose `attrs` contain `static`. -/
+def staticNames (j : Json) : Except String (List String) :=
+  match j.getObjVal? "methods" with
+  | .ok (.arr a) => do
+    let r ← a.toList.mapM (fun m => do
+      let attrs ← strList m "attrs"
+      if optStr m "op" == some "method_decl" && attrs.contains "static" then pure [strD m "name"] else pure [])
+    pure r.flatten
+  | _ => pure []
+
 mutual
 partial def getBody (j : Json) (k : String) : Except String (List Stmt) :=
   match j.getObjVal? k with
@@ -107,7 +117,17 @@ partial def getStmt (j : Json) : Except String Stmt := do
     pure (.methodDecl (strD j "name") ps (← getBody j "body"))
   | "class_decl" =>
     if !(← getBody j "nested").isEmpty then pure (.unsupported "nested-class")
-    else pure (.classDecl (strD j "name") ((← strList j "supers").map Opd.ofToken) (← getBody j "methods"))
+    else
+      let statics ← staticNames j
+      let supers := (← strList j "supers").map Opd.ofToken
+      if statics.isEmpty then pure (.classDecl (strD j "name") supers (← getBody j "methods"))
+      else pure (classWithStatics (strD j "name") supers (← getBody j "methods") statics)
+  | "new_object" =>
+    if hasVal j "packed_positional_args" || hasVal j "packed_named_args" || hasVal j "named_args" then
+      pure (.unsupported "new_object-arguments")
+    else pure (.newObject (strD j "target") (optTok j "data_type") ((← strList j "positional_args").map Opd.ofToken))
+  | "expression_stmt" => pure .pass
+  | "package_stmt" => pure .pass
   | "new_array" => pure (.newArray (strD j "target") ((← strList j "attrs").contains "tuple"))
   | "array_write" => pure (.arrayWrite (tok j "array") (tok j "index") (tok j "source"))
   | "array_read" => pure (.arrayRead (strD j "target") (tok j "array") (tok j "index"))
